@@ -179,7 +179,7 @@ func c14(g *Gen) {
 	for _, w := range allStrings([]rune("sxyhefcba"), g.N(3, 4)) {
 		pl(0, false, w, "plural-exhaustive")
 	}
-	words := []string{"Pod", "Endpoints", "fish", "Ox", "Policy", "Key", "Class", "Box", "Quiz", "Batch", "Mesh", "Path", "Knife", "Leaf", "Safe", "Y", "", "IngressClass", "Gateway", "Proxy", "Status", "Life"}
+	words := []string{"Pod", "Endpoints", "fish", "Ox", "Policy", "Key", "Class", "Box", "Quiz", "Batch", "Mesh", "Path", "Knife", "Leaf", "Safe", "Y", "", "IngressClass", "Gateway", "Proxy", "Status", "Life", "ProxyV2y", "APIKEy", "Gateway_y", "Xy", "x9y", "Ay"}
 	for i := 0; i < g.N(300, 5000); i++ {
 		pl(g.R.Intn(3), g.Chance(0.5), g.Pick(words), "plural-words")
 	}
